@@ -370,15 +370,12 @@ theorem Sh.run {w : World} {f i : Nat} {link : Bool} (h : Sh w f i link) (edits 
 
 /-! ### establishing the relation: constructor, then `inverse` -/
 
-theorem linkInto_post {w : World} (h : WF w) {id oid : Nat} {o other : Obj} (hne : oid ≠ id)
-    (hother : w.objs oid = some other) (hty : other.cls.pyType = o.cls.pyType)
-    (hkey : w.pdicts o.pdict = none) :
-    ∃ w' o', linkInto w id o oid = (w', none) ∧ w'.objs id = some o' ∧ o'.slot = .mod (some (.obj oid))
+theorem linkCore_post {w : World} (h : WF w) {id oid : Nat} {o other : Obj}
+    (hother : w.objs oid = some other) (hkey : w.pdicts o.pdict = none) :
+    ∃ w' o', linkCore w id o oid other = (w', none) ∧ w'.objs id = some o' ∧ o'.slot = .mod (some (.obj oid))
       ∧ o'.pdict = o.pdict ∧ o'.cls = o.cls ∧ o'.grid = o.grid ∧ o'.cond = o.cond ∧ o'.invert = o.invert
       ∧ (∀ j, j ≠ id → w'.objs j = w.objs j) ∧ w'.pdicts = w.pdicts := by
-  unfold linkInto
-  rw [if_neg hne]
-  simp only [hother, hty, ne_eq, not_true_eq_false, if_false]
+  unfold linkCore
   have hsp : setParams w o (.obj oid) = .ok (w, { o with slot := .mod (some (.obj oid)) }) := by
     unfold setParams; simp only [hkey]
   simp only [hsp]
@@ -410,6 +407,35 @@ theorem linkInto_post {w : World} (h : WF w) {id oid : Nat} {o other : Obj} (hne
       | fnmod x => simp only [hc]; exact fin
       | obj x => simp only [hc]; exact fin
 
+/-- `link_` succeeds whatever kind of params the linking instance held (fix 20bab42: a registered
+    Parameter is deleted from the instance's own `_parameters` container first); afterwards the
+    instance resolves `params` to the linked transform and nothing else changed except its own
+    container. -/
+theorem linkInto_post {w : World} (h : WF w) {id oid : Nat} {o other : Obj} (hne : oid ≠ id)
+    (hother : w.objs oid = some other) (hty : other.cls.pyType = o.cls.pyType) :
+    ∃ w' o', linkInto w id o oid = (w', none) ∧ w'.objs id = some o' ∧ o'.slot = .mod (some (.obj oid))
+      ∧ o'.pdict = o.pdict ∧ o'.cls = o.cls ∧ o'.grid = o.grid ∧ o'.cond = o.cond ∧ o'.invert = o.invert
+      ∧ (∀ j, j ≠ id → w'.objs j = w.objs j) ∧ w'.pdicts o.pdict = none
+      ∧ (∀ k, k ≠ o.pdict → w'.pdicts k = w.pdicts k) := by
+  unfold linkInto
+  rw [if_neg hne]
+  simp only [hother, hty, ne_eq, not_true_eq_false, if_false]
+  by_cases hk : (w.pdicts o.pdict).isSome = true
+  · simp only [hk, if_true]
+    obtain ⟨w', o', a1, a2, a3, a4, a5, a6, a7, a8, a9, a10⟩ :=
+      linkCore_post (w := w.delPdict o.pdict) (h.delPdict _) (id := id) (oid := oid) (o := o) (other := other)
+        hother (by simp [World.delPdict])
+    refine ⟨w', o', a1, a2, a3, a4, a5, a6, a7, a8, a9, ?_, ?_⟩
+    · rw [a10]; simp [World.delPdict]
+    · intro k hkk; rw [a10]; simp [World.delPdict, hkk]
+  · simp only [hk, if_false]
+    have hnone : w.pdicts o.pdict = none := by
+      cases hh : w.pdicts o.pdict with
+      | none => rfl
+      | some x => simp [hh] at hk
+    obtain ⟨w', o', a1, a2, a3, a4, a5, a6, a7, a8, a9, a10⟩ :=
+      linkCore_post (w := w) h (id := id) (oid := oid) (o := o) (other := other) hother hnone
+    exact ⟨w', o', a1, a2, a3, a4, a5, a6, a7, a8, a9, by rw [a10]; exact hnone, fun k _ => by rw [a10]⟩
 
 theorem invertible_not_composite {c : Cls} (h : c.invertible = true) : c.isComposite = false := by
   cases c <;> simp [Cls.invertible, Cls.isComposite] at h ⊢
@@ -419,9 +445,10 @@ theorem invertible_not_composite {c : Cls} (h : c.invertible = true) : c.isCompo
     container — otherwise F-07) and establishes the sharing relation. -/
 theorem inverse_post {w : World} (h : WF w) {f : Nat} {oF : Obj} (hF : w.objs f = some oF)
     (hfn : f ≠ w.nObj) (hinv : oF.cls.invertible = true) (hnl : ∀ s, w.lookup oF ≠ .obj s)
-    (link ub : Bool) (hkey : link = true → w.pdicts oF.pdict = none) :
+    (link ub : Bool) :
     ∃ w1, step w (.inverse f link ub) = (w1, .new w.nObj) ∧ Sh w1 f w.nObj link := by
   have hleaf := invertible_not_composite hinv
+  have hok := h.objs f oF hF
   have hw' := WF_step h (.inverse f link ub)
   have hstep : step w (.inverse f link ub) = (match inverseLeaf w f oF link ub with
       | .error e => (w, .err e)
@@ -429,36 +456,42 @@ theorem inverse_post {w : World} (h : WF w) {f : Nat} {oF : Obj} (hF : w.objs f 
     simp only [step, hF]
     cases hc : oF.cls <;> simp [hc, Cls.invertible] at hinv ⊢ <;> rfl
   rw [hstep] at hw' ⊢
-  have hobjN : (w.addObj oF).1.objs w.nObj = some oF := objs_addObj_new w oF
-  have hobjF : (w.addObj oF).1.objs f = some oF := by simp [World.addObj, hfn, hF]
-  unfold inverseLeaf copyObj at hw' ⊢
+  have hobjN : (copyObj w oF).1.objs w.nObj = some (copyRec w oF) := objs_copyObj_new w oF
+  have hobjF : (copyObj w oF).1.objs f = some oF := by simp [copyObj, World.addObj, hfn, hF, World.copyDict]
+  have hnid : (copyObj w oF).2 = w.nObj := rfl
+  have hpdF : oF.pdict ≠ w.nDict := Nat.ne_of_lt hok.alloc
+  -- the forward's lookup is the same in the world with the copy
+  have hlkF : (copyObj w oF).1.lookup oF = w.lookup oF := by
+    apply lookup_congr_at; simp [copyObj, World.addObj, World.copyDict, hpdF]
+  have hlkC : (copyObj w oF).1.lookup (copyRec w oF) = w.lookup oF := by
+    unfold World.lookup copyRec copyObj World.addObj World.copyDict; simp
+  unfold inverseLeaf at hw' ⊢
   simp only [hinv, if_true] at hw' ⊢
-  have hnid : (w.addObj oF).2 = w.nObj := rfl
   cases link with
   | false =>
     simp only [Bool.false_eq_true, if_false, hnid, hobjN] at hw' ⊢
-    refine ⟨_, rfl, hw', hfn, oF, _, ?_, objs_setObj_same _ _ _, hleaf, ?_, ?_, ?_, ?_, Or.inl ⟨rfl, ?_⟩⟩
+    have fr := invFinish_frame (copyObj w oF).1 (copyRec w oF) (!oF.invert) ub
+    refine ⟨_, rfl, hw', hfn, oF, _, ?_, objs_setObj_same _ _ _, hleaf, ?_, fr.2.2.2.2.2.2.2, fr.2.2.2.2.1, ?_,
+      Or.inl ⟨rfl, ?_⟩⟩
     · rw [objs_setObj_ne _ _ hfn]; exact hobjF
-    · rw [(invFinish_frame _ _ _ _).2.2.2.2.2.1]; exact hleaf
-    · exact (invFinish_frame _ _ _ _).2.2.2.2.2.2.2
-    · exact (invFinish_frame _ _ _ _).2.2.2.2.1
-    · intro s; rw [lookup_setObj, lookup_addObj]; exact hnl s
-    · rw [lookup_setObj, lookup_setObj, lookup_addObj, lookup_addObj]
-      exact lookup_slot (invFinish_frame _ _ _ _).1 (invFinish_frame _ _ _ _).2.1
+    · rw [fr.2.2.2.2.2.1]; exact hleaf
+    · intro s; rw [lookup_setObj, hlkF]; exact hnl s
+    · rw [lookup_setObj, lookup_setObj, hlkF, lookup_slot fr.1 fr.2.1, hlkC]
   | true =>
-    obtain ⟨w2, o2, hlk, ho2, hs2, hp2, hc2, _, hco2, hi2, hoth, hpd⟩ :=
-      linkInto_post (w := (w.addObj oF).1) (h.addObj (h.objs f oF hF)) (id := w.nObj) (oid := f) (o := oF)
-        (other := oF) hfn hobjF rfl (hkey rfl)
+    obtain ⟨w2, o2, hlk, ho2, hs2, hp2, hc2, _, hco2, hi2, hoth, hkey2, hpd⟩ :=
+      linkInto_post (w := (copyObj w oF).1) (WF_copyObj h hok) (id := w.nObj) (oid := f) (o := copyRec w oF)
+        (other := oF) hfn hobjF rfl
     simp only [if_true, hnid, hlk, ho2] at hw' ⊢
     have fr := invFinish_frame w2 o2 (!oF.invert) ub
     have hF2 : w2.objs f = some oF := by rw [hoth f hfn]; exact hobjF
-    have hkey2 : w2.pdicts oF.pdict = none := by rw [hpd]; exact hkey rfl
     refine ⟨_, rfl, hw', hfn, oF, _, ?_, objs_setObj_same _ _ _, hleaf, ?_, fr.2.2.2.2.2.2.2, ?_, ?_,
       Or.inr ⟨rfl, ?_⟩⟩
     · rw [objs_setObj_ne _ _ hfn]; exact hF2
     · rw [fr.2.2.2.2.2.1, hc2]; exact hleaf
     · rw [fr.2.2.2.2.1]; exact hco2
-    · intro s; rw [lookup_setObj, lookup_congr hpd, lookup_addObj]; exact hnl s
+    · intro s
+      rw [lookup_setObj, lookup_congr_at (hpd oF.pdict (by show oF.pdict ≠ w.nDict; exact hpdF)), hlkF]
+      exact hnl s
     · rw [lookup_setObj]
       unfold World.lookup
       rw [fr.1, hs2, fr.2.1, hp2, hkey2]
